@@ -447,6 +447,84 @@ pub fn run(ctx: &Ctx) -> Report {
         st = st.merge(st5);
     }
 
+    // (6) signed headers with a well-known meaning (entity / framing / payload-digest headers) under every option
+    //     set, with a form body so that folding rewrites the request: signed as sent they verify, and every change
+    //     of one value, every added value and every removal invalidates the signature
+    {
+        let body: &[u8] = b"a=b&c=d%20e";
+        let digest = refmodel::hex_lower(&refmodel::hmac::sha256(body));
+        let wk: Vec<(&str, Vec<u8>)> = vec![
+            ("Content-Type", b"application/x-www-form-urlencoded".to_vec()),
+            ("Content-Length", body.len().to_string().into_bytes()),
+            ("Content-MD5", b"1B2M2Y8AsgTpgAmY7PhCfg==".to_vec()),
+            ("X-Amz-Content-Sha256", digest.clone().into_bytes()),
+            ("Content-Encoding", b"identity".to_vec()),
+            ("Transfer-Encoding", b"identity".to_vec()),
+            ("Expect", b"100-continue".to_vec()),
+            ("Range", b"bytes=0-10".to_vec()),
+            ("Connection", b"keep-alive".to_vec()),
+            ("X-Amz-Expires", b"300".to_vec()),
+            ("X-Amz-Target", b"Service.Operation".to_vec()),
+        ];
+        let alts: Vec<&[u8]> = vec![b"0", b"", b"1", b"identity", b"UNSIGNED-PAYLOAD", b"e3b0c44298fc1c149afbf4c8996fb92427ae41e4649b934ca495991b7852b855", b"text/plain", b"11 "];
+        let mut cases: Vec<(String, Case)> = Vec::new();
+        for opt in 0..4u8 {
+            for carrier in [Carrier::Header, Carrier::Query] {
+                let mut plan = e2e::base_plan(carrier);
+                plan.method = "POST".into();
+                plan.body = body.to_vec();
+                plan.url_params = vec![(b"u".to_vec(), b"1".to_vec())];
+                for (n, v) in &wk {
+                    plan.headers.push((n.to_string(), v.clone()));
+                    plan.signed.push(n.to_ascii_lowercase());
+                }
+                let mut c = cfg.clone();
+                c.s3 = opt & 1 == 1;
+                c.fold = opt & 2 == 2;
+                if c.fold {
+                    plan.body_params = Some(vec![(b"a".to_vec(), b"b".to_vec()), (b"c".to_vec(), b"d e".to_vec())]);
+                }
+                let w = WireReq::from_wire(&build(&plan).wire);
+                let tag = format!("opt{}/{:?}", opt, carrier);
+                cases.push((format!("{}: as signed", tag), Case { wire: w.clone(), cfg: c.clone(), prov: ProvSpec::standard() }));
+                for (n, _) in &wk {
+                    for a in &alts {
+                        let mut x = w.clone();
+                        for hd in x.headers.iter_mut() {
+                            if hd.0.eq_ignore_ascii_case(n) {
+                                hd.1 = a.to_vec();
+                            }
+                        }
+                        cases.push((format!("{}: {} := {:?}", tag, n, String::from_utf8_lossy(a)), Case { wire: x, cfg: c.clone(), prov: ProvSpec::standard() }));
+                    }
+                    let mut x = w.clone();
+                    x.headers.push((n.to_string(), b"0".to_vec()));
+                    cases.push((format!("{}: second {} value", tag, n), Case { wire: x, cfg: c.clone(), prov: ProvSpec::standard() }));
+                    let mut x = w.clone();
+                    x.headers.retain(|h| !h.0.eq_ignore_ascii_case(n));
+                    cases.push((format!("{}: {} removed", tag, n), Case { wire: x, cfg: c.clone(), prov: ProvSpec::standard() }));
+                }
+            }
+        }
+        let n6 = cases.len() as u64;
+        let st6 = par_sweep(n6, |i, st| {
+            let (label, c) = &cases[i as usize];
+            let before = st.violations.len();
+            let j = e2e::judge_into(n_bases * 1000 + 600_000 + i, c, st);
+            st.nontrivial(&(&c.wire, c.cfg.s3, c.cfg.fold, "signed-well-known"));
+            st.state(&(j.reference.stage as u8, "signed-well-known"));
+            if st.violations.len() > before {
+                if let Some(v) = st.violations.last_mut() {
+                    v.what = format!("signed-well-known-header:{}:{}", label, v.what);
+                }
+            }
+            if label.ends_with("as signed") && !j.reference.accepted() {
+                machinery_error(&format!("C11 case {:?}: reference refuses its own request: {:?}", label, j.reference.error));
+            }
+        });
+        st = st.merge(st6);
+    }
+
     // (3b) the same differential on refused bases
     let refused = refused_bases();
     let n_ref = refused.len() as u64;
@@ -483,7 +561,7 @@ pub fn run(ctx: &Ctx) -> Report {
     Report {
         stats: st,
         rule: format!(
-            "{} base requests: x-a with every list of 0..2 values over 14 values (spaces outside/inside, empty, comma, 0xE9, quoted, inner/outer/double tabs, values beginning/ending in bytes 0x85 / 0xA0) x x-b (none, one, two values) x content-type (absent/present) x every signed subset of {{x-a, x-b, content-type, x-amz-date}} x 3 arrival orders x 3 name-case styles, header carrier and (1 in 5) query carrier; (1) accepted, canonical request bytes equal to the reference's; (2) on every {} base, every single edit of a signed header (insertion of 4 bytes at every position, deletion and 3 substitutions at every position, value added/removed, two values swapped, value moved to another signed name) with the old signature: Ok iff the reference header block is unchanged; (3) every insertion position of an unsigned header, removal/modification/extra value of every unsigned one, every rotation of the header groups: identical outcome; the same insertions on {} refused bases; (4) a thrice-repeated signed header among 12..100 header lines in 4 arrangements: accepted, refused once two signed values are swapped, unaffected by removing unsigned lines (each 8 times); (5) 8 Host spellings (ports 443/80/8443, upper case, trailing dot, IPv6, doubled port) signed literally on both carriers, each with 36 unsigned headers (well-known hop-by-hop / proxy / content headers and near-miss names of the headers the library consults) added, and every signature presented with every other Host value. states = distinct reference canonical requests",
+            "{} base requests: x-a with every list of 0..2 values over 14 values (spaces outside/inside, empty, comma, 0xE9, quoted, inner/outer/double tabs, values beginning/ending in bytes 0x85 / 0xA0) x x-b (none, one, two values) x content-type (absent/present) x every signed subset of {{x-a, x-b, content-type, x-amz-date}} x 3 arrival orders x 3 name-case styles, header carrier and (1 in 5) query carrier; (1) accepted, canonical request bytes equal to the reference's; (2) on every {} base, every single edit of a signed header (insertion of 4 bytes at every position, deletion and 3 substitutions at every position, value added/removed, two values swapped, value moved to another signed name) with the old signature: Ok iff the reference header block is unchanged; (3) every insertion position of an unsigned header, removal/modification/extra value of every unsigned one, every rotation of the header groups: identical outcome; the same insertions on {} refused bases; (4) a thrice-repeated signed header among 12..100 header lines in 4 arrangements: accepted, refused once two signed values are swapped, unaffected by removing unsigned lines (each 8 times); (5) 8 Host spellings (ports 443/80/8443, upper case, trailing dot, IPv6, doubled port) signed literally on both carriers, each with 36 unsigned headers (well-known hop-by-hop / proxy / content headers and near-miss names of the headers the library consults) added, and every signature presented with every other Host value; (6) a form POST signing 11 entity / framing / payload-digest headers (Content-Length, Content-Type, Content-MD5, X-Amz-Content-Sha256, Transfer-Encoding, Expect, Range, ...) under {{default, S3, fold, S3+fold}} on both carriers: accepted as signed, and judged against the reference for each of 8 replacement values, an added second value and the removal of every one of them. states = distinct reference canonical requests",
             n_bases, if edit_stride == 1 { "" } else { "third" }, n_ref
         ),
         bounds: json!({"bases": n_bases, "edit_stride": edit_stride}),
